@@ -20,7 +20,26 @@ func vhBuildC20(g *vhDigits, depth, maxw int, label string, nodes *[]Stack) Stac
 		s = List()
 	}
 	cfg, _ := s.config()
-	cfg.opt = cfgFlag(nondetUint16()) & (parens | negidx | fwdidx | ronly)
+	if len(*nodes) < 5 {
+		// the first five nodes of a tree: all four bits are solver variables
+		cfg.opt = cfgFlag(nondetUint16()) & (parens | negidx | fwdidx | ronly)
+	} else {
+		// further nodes: drawn with the shape (keeps the path count of a
+		// single large tree from dwarfing the rest of the tier)
+		v := g.next(16)
+		if v&1 != 0 {
+			cfg.opt |= parens
+		}
+		if v&2 != 0 {
+			cfg.opt |= negidx
+		}
+		if v&4 != 0 {
+			cfg.opt |= fwdidx
+		}
+		if v&8 != 0 {
+			cfg.opt |= ronly
+		}
+	}
 	// display options must not influence which wrappers are removed
 	switch g.next(4) {
 	case 1:
@@ -41,8 +60,8 @@ func vhBuildC20(g *vhDigits, depth, maxw int, label string, nodes *[]Stack) Stac
 	for i := 0; i < w; i++ {
 		name := label + string(rune('a'+i))
 		kinds := 6
-		if depth <= 1 {
-			kinds = 3
+		if depth <= 1 || len(*nodes) >= 9 {
+			kinds = 3 // leaves only: depth bound, or the tree has 9 Stack nodes already
 		}
 		var el any
 		switch g.next(kinds) {
